@@ -9,7 +9,7 @@ open OdxVerif.Bits OdxVerif.OdxM
 /- Full statement of C02: see `Props/C02Nested.lean`.  Proved here: the instance where every top-level parameter is a well-formed
    `Desc2R` (`Proofs/CompRes.lean`): `Desc2` plus RESERVED and NRC-CONST parameters and STRUCTUREs over them.  A skipped
    parameter has NO entry in the layout (`C02_skipped_no_entry`): it is not a "described object" in the sense of the overlap
-   clause — a VALUE parameter placed over a RESERVED / NRC-CONST parameter raises no overlap warning (`exResOverlap`, `exNrc`), in
+   clause — a VALUE parameter placed over a RESERVED / NRC-CONST parameter raises no overlap warning (`exResOverlap`, `exNrcR`), in
    the model and in odxtools.  Its bits are not written: they are zero unless an entry of the layout claims them (clause (2);
    `C02_unclaimed_field_reads_zero`: the decoder then returns 0 for it).  It counts for the length of the PDU (clause (4):
    `extent` includes the skipped objects — a RESERVED parameter in last position makes the PDU longer, `exRes`).
